@@ -415,12 +415,13 @@ def step (s : State) (op : Op) : State × Res :=
 
 def run (s : State) (ops : List Op) : State := ops.foldl (fun s op => (step s op).1) s
 
-/-- `create_suspend_point` as the pinned commit had it: the readied handles were taken off the *back* of the ready queue
-(`ss << queue.back(); pop_back()`), i.e. collected in reverse order -/
+/-- `create_suspend_point` as the pinned commit had it (before `/repo` commit 34c6158): the readied handles were taken off the
+*back* of the ready queue (`ss << queue.back(); pop_back()`), i.e. collected in reverse order.  Every handle is still held exactly
+once: the order is the business of C05 (FIFO), not of C06 -/
 def createAsIs (s : State) (i : Nat) (hs : List Ptr) (v : Option Nat) : State :=
   if vacant s i then createAll (setObj s i (some { typed := v.isSome, value := v })) i hs.reverse else s
 
-/-! ### the unrepaired code (pinned commit): merging a suspend point into itself -/
+/-! ### the unrepaired code (pinned commit, before `/repo` commit a20835f): merging a suspend point into itself -/
 
 /-- the loop of the unrepaired `operator<<` when `other` is the object itself: `count` and the flag were read once
 before the loop (`flag0`), every iteration re-reads the object's own, changing, storage and `add`s to it -/
@@ -442,8 +443,8 @@ def stepMergeSelfAsIs (s : State) (i : Nat) (o : Obj) : State :=
               else selfMergeLoopAsIs (o.cf % 2 == 1) i (o.cf / 2) 0 s)
         i (some { o1 with cf := 0 })
 
-/-- the unrepaired `await_suspend`: the guard against a double insert looked only at the handles that remain
-after `pop()`, not at the popped handle itself -/
+/-- the unrepaired `await_suspend` (before `/repo` commit e49d44d): the guard against a double insert looked only at the
+handles that remain after `pop()`, not at the popped handle itself -/
 def awaitExtraAsIs (s : State) (o : Obj) (me : Ptr) : List Ptr :=
   if me ∈ handlesOf s { o with cf := o.cf - 2 } then [] else [me]
 
@@ -453,6 +454,8 @@ def awaitQueueAsIs (s : State) (i : Nat) (o : Obj) (me : Ptr) : State :=
       (handlesOf s { o with cf := o.cf - 2 } ++ awaitExtraAsIs s o me))
     i { o with cf := o.cf - 2 }
 
+/-- `co_await sp` as the pinned commit had it (before `/repo` commit e49d44d "fix: co_await on a suspend point whose last handle
+is the awaiting coroutine resumed it twice"): `awaitObj` with the incomplete guard `awaitExtraAsIs` -/
 def awaitObjAsIs (s : State) (i : Nat) (o : Obj) (me : Ptr) : State :=
   if o.cf / 2 = 0 then s
   else if s.active then
@@ -461,6 +464,8 @@ def awaitObjAsIs (s : State) (i : Nat) (o : Obj) (me : Ptr) : State :=
   else
     { flushAll (resumeAll (awaitQueueAsIs { s with active := true } i o me) [popValue s o]) with active := false }
 
+/-- the step function of the pinned commit: `co_await` before `/repo` commit e49d44d, self-merge / self move-assignment before
+`/repo` commit a20835f; everything else as `step` -/
 def stepAsIs (s : State) (op : Op) : State × Res :=
   match op with
   | Op.await i me =>
